@@ -73,6 +73,29 @@ def gen_cases(ctx):
                     gates = [x for x in gates if x["g"] != "meas"]
                     cases.append({"op": "circuit", "mode": "exec", "n": n, "cn": n, "v": rand_vec(rng, n, "normalised"), "gates": gates, "draws": [],
                                   "split": rng.randrange(0, len(gates) + 1), "thr": rng.choice([10, 1])})
+    # a state wider / narrower than the circuit (also for a circuit without gates, and with every gate inside the narrower of the two):
+    # execute and trace_execution both refuse it
+    for n in (2, 3, 4):
+        for cn in (n - 1, n + 1):
+            w = min(n, cn)
+            for L in (0, 1, 3):
+                gates = [rand_any_gate(rng, w, us) for _ in range(L)]
+                nmeas = sum(1 for g in gates if g["g"] == "meas")
+                cases.append({"op": "circuit", "mode": "exec", "n": n, "cn": cn, "v": rand_vec(rng, n, "normalised"), "gates": gates,
+                              "draws": [float2bits(0.4)] * nmeas, "split": 0, "thr": 10})
+    # builder histories with every kind of draining step between a successful build and a later out-of-range gate: every build validates
+    # every gate it is about to hand out
+    for n in (2, 3):
+        good = [rand_any_gate(rng, n, us) for _ in range(3)]
+        bad = rand_any_gate(rng, n, us, bad=True)
+        while not any(q >= n for q in sum(targets_of(bad), [])): bad = rand_any_gate(rng, n, us, bad=True)
+        pool = good + [bad]
+        for drain in ("build_sub", "build_final", "build", None):
+            for nbad in (1, 2):
+                ops = [{"o": "add_gate", "i": 0}, {"o": "add_gate", "i": 1}, {"o": "add_gate", "i": 2}, {"o": "build"}]
+                if drain: ops.append({"o": drain})
+                ops += [{"o": "add_gate", "i": 3}] + [{"o": "add_gate", "i": 0}] * (nbad - 1) + [{"o": "build"}, {"o": "build_sub"}, {"o": "add_gate", "i": 3}, {"o": "build"}, {"o": "build_final"}]
+                cases.append({"op": "circuit", "mode": "history", "n": n, "pool": pool, "ops": ops})
     # builder histories
     for _ in range(120 if not ctx.thorough() else 600):
         n = rng.randrange(1, 6)
